@@ -1,14 +1,30 @@
 (* C15 - Stored messages survive broker restarts and crashes.
-   What is emitter's own logic: Store returns only after the engine's transaction committed, and
-   the entry written is (id, Encode(message), id time + ttl); reopening is Configure again.  Model:
-   Model/StoreLog.v over an engine whose committed transactions are durable and atomic - an
-   ASSUMPTION about badger (SyncWrites = false: durable against process death, not machine crash),
-   which the c15 harness validates on every run by killing a storing child process at arbitrary
-   moments and reopening the directory.  The codec round trip of the stored value is C19. *)
-From Emitter Require Import Lib.Base Model.MsgCodec Model.StoreLog Proofs.StoreLogProofs.
+   What is emitter's own logic: Store returns only after the engine's transaction committed, the
+   entry written is (id, Encode(message), id time + ttl), and a query after the restart decodes the
+   surviving values.  Model: Model/StoreLog.v over an engine whose committed transactions are durable
+   and atomic - an ASSUMPTION about badger (SyncWrites = false: durable against process death, not
+   machine crash), which the c15 harness validates on every run by killing a storing child process
+   at arbitrary moments (and stopping it while it is still storing) and reopening the directory. *)
+From Emitter Require Import Lib.Base Model.MsgCodec Model.Store Model.StoreLog Proofs.MsgCodecProofs Proofs.StoreLogProofs.
 
+(* for every history of stores, crashes at any point (also inside a store call) and restarts:
+   every acknowledged message is recovered with identical id, channel, payload and ttl (its entry
+   is committed and decodes back to it; the expiry written is the id's time plus the ttl), and
+   nothing is recovered that was never handed to Store *)
 Theorem C15_acked_survive_nothing_invented : forall landed ops,
   let s := fold_left (dstep landed) ops d0 in
-  (forall m, In m (d_acked s) -> In m (d_committed s)) /\ (forall m, In m (d_committed s) -> In m (d_tried s)).
-Proof. intros landed ops. apply (acked_survive landed ops d0); intros m []. Qed.
+  (forall m, In m (d_acked s) -> msg_ok m ->
+     exists e, In e (d_committed s) /\ recover e = Ok m /\ kv_key e = m_id m
+               /\ kv_expires e = (match id_time (m_id m) with Ok t => t + Z.of_N (m_ttl m) | _ => 0 end)%Z)
+  /\ (forall e, In e (d_committed s) -> exists m, In m (d_tried s) /\ e = entry_of m).
+Proof.
+  intros landed ops. destruct (acked_survive landed ops d0) as [A B]; [intros m [] | intros e [] |].
+  split; [|exact B]. intros m Hm Hok. exists (entry_of m). split; [apply A; exact Hm|]. split; [apply recover_entry; exact Hok|]. split; reflexivity.
+Qed.
 Print Assumptions C15_acked_survive_nothing_invented.
+
+Example C15_nonvacuous :
+  let m := Msg [1; 2; 3] [97] [5; 6] 60 in
+  let s := fold_left (dstep (fun _ => false)) [SStore m true; SCrash; SStore m false; SRestartClean] d0 in
+  d_acked s = [m] /\ map recover (d_committed s) = [Ok m].
+Proof. vm_compute. split; reflexivity. Qed.
